@@ -20,6 +20,17 @@ object" includes records held in bool, (u)int8/16/32/64, float16/32, long double
 double.  Every such dtype x every layout x every length gets its own leaves (ramp, values at both limits of
 the integer type / values that are not representable in a lower precision, last basis element, seeded random
 field; without and with same-dtype noise).  Precision demanded on them: see `_leaf_eps`.
+
+Hardening pass (input classes, not oracles; see notes/C02.md "Hardening pass"):
+* long lengths (`LONG_QUICK`/`LONG_EXTRA`: non-smooth primes 97/127, 2^k-1, 1023..1025, 4095..4097, 8191, ...) with a reduced
+  data alphabet; above `EXACT_FULL_MAX` samples the exact model is evaluated at `_bins(n)` output positions (`ex_bins`);
+* noise present-and-all-zero (`zero`), noise handed over in another dtype than the signal (`xdt`), scale members 1e-12 and
+  "DC 1e6 + 1e-3 variation";
+* gv histories with non-integer fs/R given as (R,fs), (sps,fs), fs alone, with a slot count, another wavelength, a custom attribute;
+* `by=` of power()/abs() (`check_by`), len() on every state, keyword / numpy-scalar spellings of domain, shift, by
+  (`check_spellings`), invalid domains that contain a valid token, the same call repeated on one object;
+* "forms" (`FORMS`): the object obtained from a list / tuple / str / scalar / dtype= / read-only / column-major input, with
+  non-contiguous views as attributes, by row duplication, by slicing a longer object, by copy().
 """
 from __future__ import annotations
 import hashlib
@@ -38,13 +49,29 @@ NONTRIVIAL = ('distinct reached object states (class, n_pol, signal bytes, noise
 
 EPS = float(np.finfo(np.float64).eps)
 K_FFT = 8.0                       # rounding constant of one transform: ||err||inf <= K*eps*max(1,log2 N)*||x||2
-LENGTHS_QUICK = (1, 2, 3, 4, 5, 7, 8, 11, 16, 17)
-LENGTHS_EXTRA = (6, 9, 13, 31, 32)            # thorough only
+LENGTHS_QUICK = (1, 2, 3, 4, 5, 7, 8, 11, 13, 16, 17)   # 13: smallest "non-smooth" length (a prime factor > 11)
+LENGTHS_EXTRA = (6, 9, 31, 32)                # thorough only
+LENGTHS_DEPTH4 = (1, 2, 3, 4, 5, 7, 8, 11, 16, 17)      # thorough: programs of depth 4 (depth 3 on the other short lengths)
+# long lengths (reduced data alphabet, see `long_patterns`): non-smooth primes, one period 2^k-1, one below / at / one above
+# the block sizes 1024 and 4096 (the library's default `nslots`), > 4096
+LONG_QUICK = (97, 127, 1023, 1024, 1025, 4095, 4096, 4097, 8191)
+LONG_EXTRA = (61, 255, 257, 2047, 4099, 16384)          # thorough only
+WGRID_LONG = (127, 4096, 4097)
+LONG_THIN = 2000                  # long lengths above this one: thinner data alphabet (`long_patterns`), noise modes none|mix|zs (+ zero once)
+EXACT_FULL_MAX = 128              # up to this length the exact model is the full long-double DFT matrix; above: `ex_bins`
 LAYOUTS = ('E', 'O1', 'O2')                    # electrical_signal, optical_signal 1-pol, optical_signal 2-pol
 NMODES = ('none', 'swap', 'mix', 'zs')        # no noise | S=0,N=pattern | S=pattern,N=other basis el. | zero-sum noise
+NMODES_FIELD = NMODES + ('zero',)             # field (non-basis) members also with a noise array that is present and all zero
 OPS = (('w', False), ('f', False), ('t', False), ('w', True), ('f', True), ('t', True))
 W_DEPTH = 2                       # w() depends on len() and gv only: checked on every state of depth <= 2
-BAD_DOMAINS = ('x', '', 'time', 'wt', 'z', None, 0, 1.5)
+BAD_DOMAINS = ('x', '', 'time', 'wt', 'z', None, 0, 1.5,
+               'tw', ' t', 'w ', 'fw', 'w,f', 't;', ('w',), ['t'], b'w')       # ... invalid values that CONTAIN a valid token
+# `by=` argument of power() / abs()
+BY_VALID = ('signal', 'noise', 'all')
+BY_CASE = ('ALL', 'Signal', 'NOISE', 'aLl')   # letter case is not documented: must raise or mean the lower-case value
+BY_BAD_STR = ('', 'x', 'sig', 'alls', 'all ', ' signal', 'signal+noise', 'noise,all', 'both')
+BY_BAD_OTHER = (None, 0, 1.5, True, ('all',), ['signal'], b'all')
+BY_DEPTH = 0                      # case / keyword / invalid spellings of `by` on the leaf state (the three valid values: every state)
 
 # sample dtypes other than float64 / complex128 / the platform int (those are the 'e', 'ec', 'ramp_i', ... members)
 DTYPES = ('bool', 'int8', 'uint8', 'int16', 'uint16', 'int32', 'uint32', 'int64', 'uint64',
@@ -52,6 +79,15 @@ DTYPES = ('bool', 'int8', 'uint8', 'int16', 'uint16', 'int32', 'uint32', 'int64'
 DT_KINDS = ('ramp', 'edge', 'elast', 'rnd')      # 'edge' = both limits of an integer type | thirds/sevenths (not exact in any lower precision)
 DT_NMODES = ('none', 'swap', 'mix')               # noise of the SAME dtype (the constructor keeps the common dtype)
 DT_DEPTH_QUICK = 1                                # every transform result is complex: the sample dtype only matters for the first operation
+# nmode 'xdt': noise handed over in a DIFFERENT dtype than the signal; the constructor stores both in numpy's common
+# type.  Partners are chosen so that the promotion is exact for every sample value (stored values == given values).
+XDT_PARTNER = {'bool': 'int8', 'int8': 'uint8', 'uint8': 'float16', 'int16': 'float32', 'uint16': 'int32', 'int32': 'float64',
+               'uint32': 'int64', 'int64': 'int8', 'uint64': 'uint8', 'float16': 'int8', 'float32': 'complex64',
+               'longdouble': 'complex64', 'complex64': 'float64', 'clongdouble': 'int8'}
+XDT_KINDS = ('ramp', 'rnd')
+# dtype members of the long lengths (values stay inside float16 / the squares inside float32)
+LONG_DT = (('bool', 'rnd'), ('int8', 'edge'), ('uint8', 'rnd'), ('int16', 'rnd'), ('int32', 'edge'), ('int64', 'ramp'),
+           ('uint64', 'edge'), ('float16', 'rnd'), ('float32', 'edge'), ('complex64', 'rnd'), ('longdouble', 'edge'))
 EPS32 = float(np.finfo(np.float32).eps)
 
 
@@ -74,6 +110,8 @@ def _dt_class(dtname):
         return ':dt=int'
     if k == 'b':
         return ':dt=bool'
+    if np.dtype(dtname) in (np.dtype('float64'), np.dtype('complex128')):
+        return ':dt=double'                                       # only reached through the promoted 'xdt' members
     return ':dt=single' if _leaf_eps(dtname) > EPS else ':dt=extended'
 
 # gv call histories (applied after gv.clean()); a-priori sampling rate where the last call fixes it
@@ -90,6 +128,17 @@ GV_CFGS = (
     (({'sps': 8}, {'fs': 12e9}), 12e9),           # two-call history
     (({'sps': 1, 'fs': 1.0},), 1.0),              # unit sampling rate
     (({'sps': 16, 'R': 10e9, 'N': 4},), 160e9),
+    # --- hardening pass: NON-commensurate grids (gv.fs != gv.R*gv.sps afterwards), fs alone, other wavelength, custom attribute
+    (({'R': 3e9, 'fs': 10e9},), 10e9),            # fs/R = 3.33: gv.sps becomes 3, gv.fs stays 10e9
+    (({'fs': 2.5e9},), 2.5e9),                    # fs alone, fs/R = 2.5: gv.sps becomes 2
+    (({'sps': 8, 'fs': 10e9},), 10e9),            # (sps, fs): R = 1.25e9
+    (({'fs': 12.3456e9, 'R': 1e9},), 12.3456e9),
+    (({'sps': 4, 'R': 10e9, 'wavelength': 1310e-9},), 40e9),
+    (({'sps': 16, 'R': 1e9, 'N': 256},), 16e9),   # default rate, gv.w / gv.t exist with 4096 entries (a trap for length 4096)
+    (({'R': 7e9, 'fs': 10e9, 'N': 3},), 10e9),    # non-integer fs/R AND a slot count: gv.sps = 1, gv.w has 3 entries (trap for length 3)
+    (({'sps': 2, 'R': 1e9, 'alpha': 0.5},), 2e9), # a custom attribute next to the grid
+    (({'fs': 10e9, 'R': 3e9}, {'sps': 4, 'R': 2e9}), 8e9),   # two-call history through a non-commensurate grid
+    (({'sps': 8, 'R': 1e9}, {'fs': 7.7e9, 'R': 2e9}), 7.7e9),  # ... and ending on one (gv.sps = 4, fs/R = 3.85)
 )
 
 
@@ -129,6 +178,38 @@ def ex_step(a, dom, shift):
     return b
 
 
+def _bins(n):
+    """output positions at which the exact DFT is evaluated for lengths > EXACT_FULL_MAX: both ends, the three positions
+    around the middle (where a shift error moves DC to / from), and a spread of interior positions"""
+    c = {0, 1, 2, 3, n // 2 - 1, n // 2, n // 2 + 1, n - 3, n - 2, n - 1, n // 7, n // 5, n // 3, (5 * n) // 8, (2 * n) // 3, 17}
+    return np.array(sorted(k for k in c if 0 <= k < n), dtype=np.int64)
+
+
+_WB = {}
+
+
+def ex_bins(a, dom, shift, pos):
+    """exact model at the output positions `pos` only (a long-double dot product per position): a is (rows, N) clongdouble"""
+    n = a.shape[1]
+    fwd = dom in ('w', 'f')
+    key = (n, fwd, bool(shift))
+    if key not in _WB:
+        if _WB and next(iter(_WB))[0] != n:
+            _WB.clear()                                  # keep the twiddle columns of one length only
+        if shift:                                        # out[j] = X[(j - N//2) mod N] after fftshift, x[(j + N//2) mod N] after ifftshift
+            k = (pos - n // 2) % n if fwd else (pos + n // 2) % n
+        else:
+            k = pos
+        m = (np.outer(np.arange(n, dtype=np.int64), k) % n).astype(_LD)     # exact integer reduction
+        ang = 2 * _PI_LD * m / _LD(n)
+        w = np.empty(m.shape, dtype=_CLD)
+        w.real = np.cos(ang)
+        w.imag = (-1 if fwd else 1) * np.sin(ang)
+        _WB[key] = w
+    b = a @ _WB[key]
+    return b if fwd else b / _LD(n)
+
+
 def np_step(a, dom, shift):
     """numpy.fft model, row by row: a is (rows, N) complex128 (or None)"""
     if a is None:
@@ -161,7 +242,26 @@ def patterns(layout, n):
             for k in range(n):
                 out.append((kind, p, k))
     # scale members: the statement is scale free (tiny amplitude; O(1) in-phase with a 1e-9 quadrature part; large amplitude)
-    out += [('ramp_r',), ('ramp_i',), ('ramp_c',), ('rnd',), ('ramp_tiny',), ('ramp_quad',), ('ramp_big',)]
+    out += list(FIELD_PATTERNS)
+    return out
+
+
+# scale members: the statement is scale free (amplitude 1e-10 / 1e-12; O(1) in-phase with a 1e-9 quadrature part; amplitude 1e6;
+# a DC level of 1e6 carrying a variation of 1e-3)
+FIELD_PATTERNS = (('ramp_r',), ('ramp_i',), ('ramp_c',), ('rnd',), ('ramp_tiny',), ('ramp_quad',), ('ramp_big',),
+                  ('ramp_pico',), ('ramp_dc',))
+
+
+def long_patterns(layout, n):
+    """data alphabet of the long lengths: the basis elements at both ends and around the middle of every row (not the full
+    basis), every field member, and one member per sample-dtype class"""
+    rows = 2 if layout == 'O2' else 1
+    if n > LONG_THIN:                                    # every transform costs a millisecond here: first / last element of every row
+        return [('e', p, 0) for p in range(rows)] + [('je', rows - 1, n - 1), ('ec', 0, n // 2 + 1),
+                                                     ('ramp_i',), ('ramp_c',), ('rnd',), ('ramp_pico',), ('ramp_dc',)]
+    out = [('e', p, k) for p in range(rows) for k in (0, 1, n // 2, n - 1)]
+    out += [('ec', rows - 1, n // 2 + 1), ('je', rows - 1, n - 1)]
+    out += list(FIELD_PATTERNS)
     return out
 
 
@@ -172,13 +272,17 @@ def _pattern_array(layout, n, pat, seed):
         _, p, k = pat
         a = np.zeros((rows, n), dtype=float if kind == 'e' else complex)
         a[p, k] = 1j if kind == 'je' else 1.0
-    elif kind in ('ramp_tiny', 'ramp_quad', 'ramp_big'):
+    elif kind in ('ramp_tiny', 'ramp_quad', 'ramp_big', 'ramp_pico', 'ramp_dc'):
         r0 = np.arange(1, n + 1)
         base = np.array([r0 * (1 + 0.5j), (-2.0 * r0[::-1] + 0.5) * (0.5 - 1j)][:rows], dtype=complex)
         if kind == 'ramp_tiny':
             a = base * 1e-10
+        elif kind == 'ramp_pico':
+            a = base * 1e-12
         elif kind == 'ramp_big':
             a = base * 1e6
+        elif kind == 'ramp_dc':
+            a = (1e6 - 2.5e5j) + base * 1e-3
         else:
             a = base.real + 1e-9j * base.imag
     elif kind in ('ramp_r', 'ramp_i', 'ramp_c'):
@@ -256,19 +360,25 @@ def _dt_leaf(layout, n, pat, nmode, seed):
     if nmode == 'swap':
         return np.zeros((rows, n), dtype=dt), a
     if nmode == 'mix':                                    # a different non-zero field of the same dtype
-        t = np.arange(n)
-        if dt.kind == 'b':
-            v = [t % 3 == 0, t % 2 == 1]
-        elif dt.kind == 'u':
-            v = [(3 * t + 1) % 5, (2 * t + 1) % 3]
-        elif dt.kind == 'i':
-            v = [(3 * t + 1) % 5 - 2, 1 - (2 * t + 1) % 3 * 2]
-        elif dt.kind == 'f':
-            v = [0.25 * (-1.0) ** t + 0.125 * (t + 1), -0.125 + 0.0625 * t]
-        else:
-            v = [0.25 * (-1.0) ** t + 0.125j * (t + 1), 0.5j * (-1.0) ** t - 0.125 + 0.0625 * t]
-        return a, np.array(v[:rows]).astype(dt)
+        return a, _dt_mix(rows, n, dt)
+    if nmode == 'xdt':                                    # ... of ANOTHER dtype: the object stores the common type of the two
+        return a, _dt_mix(rows, n, np.dtype(XDT_PARTNER[dtname]))
     raise KeyError(nmode)
+
+
+def _dt_mix(rows, n, dt):
+    t = np.arange(n)
+    if dt.kind == 'b':
+        v = [t % 3 == 0, t % 2 == 1]
+    elif dt.kind == 'u':
+        v = [(3 * t + 1) % 5, (2 * t + 1) % 3]
+    elif dt.kind == 'i':
+        v = [(3 * t + 1) % 5 - 2, 1 - (2 * t + 1) % 3 * 2]
+    elif dt.kind == 'f':
+        v = [0.25 * (-1.0) ** t + 0.125 * ((t + 1) % 64), -0.125 + 0.0625 * (t % 64)]
+    else:
+        v = [0.25 * (-1.0) ** t + 0.125j * ((t + 1) % 64), 0.5j * (-1.0) ** t - 0.125 + 0.0625 * (t % 64)]
+    return np.array(v[:rows]).astype(dt)
 
 
 def leaf_arrays(layout, n, pat, nmode, seed):
@@ -279,6 +389,8 @@ def leaf_arrays(layout, n, pat, nmode, seed):
     a = _pattern_array(layout, n, pat, seed)
     if nmode == 'none':
         return a, None
+    if nmode == 'zero':                                   # noise present and all zero (same dtype as the signal)
+        return a, np.zeros_like(a)
     if nmode == 'swap':                                   # pair-space basis element (0, b)
         return np.zeros((rows, n)), a
     if nmode == 'mix':                                    # a different, non-zero-sum field as noise
@@ -311,6 +423,110 @@ def build_obj(layout, s, nz):
     if layout == 'E':
         return electrical_signal(s1, n1)
     return optical_signal(s1, n1, n_pol=1)
+
+
+# ------------------------------------------------------------------ other ways of obtaining a signal object ("forms")
+# Every documented container / spelling of the constructors and objects handed out by other methods of the library.  The
+# reference of a form leaf is whatever the object STORES (how a container is converted is property C01): only the shape is
+# presupposed.  (form, layouts, lengths or None = every form length, data patterns)
+FORM_LENGTHS = (1, 2, 3, 5, 8, 13)
+FORM_LENGTHS_LONG = (127, 4097)
+SCALARS = (('int', 3), ('float', 2.5), ('complex', 1 - 2j), ('bool', True), ('np.int64', np.int64(-3)), ('np.uint8', np.uint8(200)),
+           ('np.float32', np.float32(2.5)), ('np.float64', np.float64(-0.1)), ('np.complex64', np.complex64(1 - 2j)),
+           ('0d-array', np.array(2.5)), ('0d-int-array', np.array(7)))
+FORMS = (
+    ('list', LAYOUTS, None, ('ramp_i', 'ramp_r', 'ramp_c')),
+    ('tuple', LAYOUTS, None, ('ramp_i', 'ramp_c')),
+    ('str:space', LAYOUTS, None, ('ramp_i', 'ramp_c')),
+    ('str:comma', LAYOUTS, None, ('ramp_i', 'ramp_c')),
+    ('str:mixed', LAYOUTS, None, ('ramp_i', 'ramp_c')),
+    ('dtype=float32', LAYOUTS, None, ('ramp_i', 'ramp_r')),
+    ('dtype=complex64', LAYOUTS, None, ('ramp_c',)),
+    ('dtype=int16', LAYOUTS, None, ('ramp_i',)),
+    ('readonly', LAYOUTS, None, ('ramp_c',)),
+    ('view', LAYOUTS, None, ('ramp_r', 'ramp_c')),           # attributes replaced by non-contiguous views holding the same values
+    ('F-order', ('O2',), None, ('ramp_r', 'ramp_c')),         # column-major (2, N) input: numpy keeps the memory order
+    ('dup1d', ('O2',), None, ('ramp_r', 'ramp_c')),           # 1-D input with n_pol=2: both rows equal
+    ('row1', ('O2',), None, ('ramp_c',)),                     # (1, N) input: n_pol defaults to 2, both rows equal
+    ('npol1of2', ('O1',), None, ('ramp_c',)),                 # (2, N) input with n_pol=1: the first row
+    ('getitem', LAYOUTS, None, ('ramp_r', 'ramp_c')),         # a slice x[2:2+N] of a longer object (the library hands out views)
+    ('copy', LAYOUTS, None, ('ramp_c',)),                     # x.copy()
+) + tuple((f'scalar:{nm}', LAYOUTS, (1,), ('ramp_c',)) for nm, _ in SCALARS)
+
+
+def _fmt(v):
+    v = complex(v)
+    if v.imag == 0 and float(v.real).is_integer():
+        return f'{int(v.real)}'
+    return f'{v.real:.12g}{v.imag:+.12g}j'
+
+
+def _as_str(a, sep):
+    rows = [sep.join(_fmt(v) for v in r) for r in np.atleast_2d(a)]
+    return '; '.join(rows)
+
+
+def build_form(form, layout, s, nz):
+    """the object of a form leaf; (s, nz) are the (rows, n) arrays of the 'nd' form"""
+    from opticomlib.typing import electrical_signal, optical_signal
+    two = layout == 'O2'
+    cls = electrical_signal if layout == 'E' else optical_signal
+    kw = {} if layout == 'E' else ({'n_pol': 1} if layout == 'O1' else {})
+
+    def shp(a):                                          # what the 'nd' form hands to the constructor
+        return None if a is None else (a.copy() if two else a[0].copy())
+
+    if form == 'nd':
+        return build_obj(layout, s, nz)
+    if form in ('list', 'tuple'):
+        conv = (lambda a: a.tolist()) if form == 'list' else (lambda a: tuple(map(tuple, a.tolist())) if a.ndim == 2 else tuple(a.tolist()))
+        return cls(conv(shp(s)), None if nz is None else conv(shp(nz)), **kw)
+    if form.startswith('str:'):
+        sep = {'space': ' ', 'comma': ',', 'mixed': ', '}[form[4:]]
+        return cls(_as_str(shp(s), sep), None if nz is None else _as_str(shp(nz), sep), **kw)
+    if form.startswith('dtype='):
+        dt = np.dtype(form[6:])
+        real = (lambda a: a) if dt.kind == 'c' else (lambda a: a.real)        # (a complex list cannot be cast to a real dtype)
+        return cls(real(shp(s)).tolist(), None if nz is None else real(shp(nz)).tolist(), dtype=dt, **kw)
+    if form == 'readonly':
+        a, b = shp(s), shp(nz)
+        a.flags.writeable = False
+        if b is not None:
+            b.flags.writeable = False
+        return cls(a, b, **kw)
+    if form == 'view':
+        x = build_obj(layout, s, nz)
+        for name in ('signal', 'noise'):
+            cur = getattr(x, name)
+            if cur is None:
+                continue
+            big = np.full(cur.shape[:-1] + (2 * cur.shape[-1] + 1,), 77, dtype=cur.dtype)
+            big[..., 1::2] = cur
+            setattr(x, name, big[..., 1::2])
+        return x
+    if form == 'F-order':
+        return optical_signal(np.asfortranarray(s), None if nz is None else np.asfortranarray(nz))
+    if form == 'dup1d':
+        return optical_signal(s[0].copy(), None if nz is None else nz[0].copy(), n_pol=2)
+    if form == 'row1':
+        return optical_signal(s[:1].copy(), None if nz is None else nz[:1].copy())
+    if form == 'npol1of2':
+        s2 = np.array([s[0], -s[0][::-1]])
+        n2 = None if nz is None else np.array([nz[0], 2 * nz[0]])
+        return optical_signal(s2, n2, n_pol=1)
+    if form == 'getitem':
+        pad = lambda a: None if a is None else np.concatenate([np.full(a.shape[:-1] + (2,), 9, a.dtype), a, np.full(a.shape[:-1] + (3,), 5, a.dtype)], axis=-1)
+        n = s.shape[1]
+        return build_obj(layout, pad(s), pad(nz))[2:2 + n]
+    if form == 'copy':
+        return build_obj(layout, s, nz).copy()
+    if form.startswith('scalar:'):
+        v = dict(SCALARS)[form[7:]]
+        noise = None if nz is None else 0.5
+        if two:
+            return optical_signal(v, n_pol=2)            # (a scalar noise is not accepted together with n_pol=2)
+        return cls(v, noise, **kw)
+    raise KeyError(form)
 
 
 def apply_cfg(cfg_idx, clean=True):
@@ -370,9 +586,12 @@ def _fixed_width_closed(s2, n2):
     (exact Python-int arithmetic).  When they are not, numpy's own `abs(s+n)**2` wraps around (bool: saturates) and the
     statement, which names the formula but not the width it is evaluated in, is silent: power() is then not asserted."""
     info = (0, 1) if s2.dtype.kind == 'b' else (int(np.iinfo(s2.dtype).min), int(np.iinfo(s2.dtype).max))
-    z = [int(v) for v in s2.ravel()]
+    z = s2.ravel().astype(object)                        # exact Python ints
     if n2 is not None:
-        z = [a + int(b) for a, b in zip(z, n2.ravel())]
+        z = z + n2.ravel().astype(object)
+    if s2.size > 64:                                     # long records: the same test through the extremes
+        lo, hi = min(z), max(z)
+        return info[0] <= lo and hi <= info[1] and max(-lo, hi) <= info[1] and max(lo * lo, hi * hi) <= info[1]
     return all(info[0] <= v <= info[1] and abs(v) <= info[1] and v * v <= info[1] for v in z)
 
 
@@ -455,24 +674,153 @@ def check_power(x, layout, where, viol, sfx='', stat=None):
     return out
 
 
+def _beq(a, b):
+    """same shape, dtype and values bit for bit (long double: by value - its storage has padding bytes)"""
+    a, b = np.asarray(a), np.asarray(b)
+    if a.shape != b.shape or a.dtype != b.dtype:
+        return False
+    if a.dtype.kind in 'fc' and a.dtype.itemsize // (2 if a.dtype.kind == 'c' else 1) > 8:
+        return bool(np.array_equal(a, b, equal_nan=True) and np.array_equal(np.signbit(a.real), np.signbit(b.real)))
+    return a.tobytes() == b.tobytes()
+
+
+def _raises(fn):
+    try:
+        r = fn()
+    except Exception as e:                                  # noqa: BLE001 - the type is judged by the caller
+        return e, None
+    return None, r
+
+
+def check_by(x, layout, where, viol, sfx='', stat=None, extended=False):
+    """the `by` argument of power() and abs(): 'signal' -> the signal alone, 'noise' -> the noise alone, 'all' -> signal+noise
+    (docstrings of power()/abs(): "defines from which attribute to obtain the power / absolute value").
+    extended: also letter case, keyword spelling and invalid values."""
+    s2 = _a2(np.asarray(x.signal))
+    n2 = _a2(x.noise)
+    n = s2.shape[1]
+    eps = _state_eps(s2.dtype)
+    fixed = s2.dtype.kind in 'biu'
+    exp_shape = (2,) if layout == 'O2' else ()
+    out = b''
+    got = {}
+    for by in BY_VALID:
+        if by == 'noise' and n2 is None:
+            # no noise stored: the docstrings do not say what 'noise' means then; a non-zero value would be wrong under any reading
+            for fname in ('power', 'abs'):
+                e, r = _raises(lambda: getattr(x, fname)('noise'))
+                if e is None and np.any(np.asarray(r) != 0):
+                    viol.append((f'{fname}:by=noise:nonzero-without-noise:{layout}{sfx}', f"{where}: {fname}('noise')={np.asarray(r).tolist()[:6]} on an object without noise"))
+            continue
+        parts = {'signal': (s2, None), 'noise': (n2, None), 'all': (s2, n2)}[by]
+        if fixed and not _fixed_width_closed(*parts):
+            if stat is not None:
+                stat['by_not_asserted_fixed_width_overflow'] = stat.get('by_not_asserted_fixed_width_overflow', 0) + 1
+            continue
+        z = _num(parts[0]) if parts[1] is None else _num(parts[0]) + _num(parts[1])
+        zl = z.astype(_CLD)
+        ref_abs = np.sqrt(zl.real ** 2 + zl.imag ** 2)      # long double, written out (not numpy.abs)
+        ref_pow = np.asarray(_sumsq(z) / n, dtype=float)
+        # --- abs(by): element-wise, same shape as the stored signal
+        a = np.asarray(x.abs(by))
+        if a.shape != np.shape(x.signal):
+            viol.append((f'abs:by={by}:shape:{layout}{sfx}', f"{where}: abs('{by}') has shape {a.shape}, expected {np.shape(x.signal)}"))
+        else:
+            got['abs', by] = a
+            out += a.astype(float).tobytes()
+            # one rounding of the sum is already in z; |.| of a complex number: hypot, a few ulp
+            if np.any(np.abs(_a2(a).astype(_LD) - ref_abs) > 4 * eps * ref_abs):
+                i = int(np.argmax(np.abs(_a2(a).astype(_LD) - ref_abs) - 4 * eps * ref_abs))
+                viol.append((f'abs:by={by}:value:{layout}{sfx}', f"{where}: abs('{by}').flat[{i}]={_a2(a).ravel()[i]!r} expected |{by if by != 'all' else 'signal+noise'}|={float(ref_abs.ravel()[i])!r}"))
+        # --- power(by): mean of |.|^2 per polarisation
+        p = np.asarray(x.power(by))
+        if p.shape != exp_shape:
+            viol.append((f'power:by={by}:shape:{layout}{sfx}', f"{where}: power('{by}') has shape {p.shape}, expected {exp_shape}"))
+        else:
+            got['power', by] = p
+            out += p.astype(float).tobytes()
+            v = np.atleast_1d(p).astype(float)
+            if by != 'all' and np.any(np.abs(v - ref_pow) > (n + 8) * eps * np.abs(ref_pow)):   # ('all' is asserted by check_power under its own keys)
+                viol.append((f'power:by={by}:value:{layout}{sfx}', f"{where}: power('{by}')={v.tolist()} expected mean|{by}|^2 per row={ref_pow.tolist()}"))
+    if not extended:
+        return out
+    for fname in ('power', 'abs'):
+        f = getattr(x, fname)
+        # keyword spelling and the default
+        for by in BY_VALID:
+            if (fname, by) not in got:
+                continue
+            variants = [('kw', lambda: f(by=by)), ('np.str_', lambda: f(np.str_(by)))] + ([('default', lambda: f())] if by == 'all' else [])
+            for nm, call in variants:
+                r = np.asarray(call())
+                if not _beq(r, got[fname, by]):
+                    viol.append((f'spelling:{fname}:by:{nm}', f"{where}: {fname}() called with by='{by}' spelled as {nm} gives {r.tolist()}, positional '{by}' gives {got[fname, by].tolist()}"))
+        # letter case: undocumented -> rejected, or the meaning of the lower-case word
+        for by in BY_CASE:
+            if (fname, by.lower()) not in got:
+                continue
+            e, r = _raises(lambda: f(by))
+            if e is not None:
+                if not isinstance(e, (ValueError, TypeError)):
+                    viol.append((f'by:case:wrong-exception:{fname}', f"{where}: {fname}('{by}') raised {type(e).__name__}: {e}"))
+                continue
+            r = np.asarray(r)
+            if not _beq(r, got[fname, by.lower()]):
+                viol.append((f'by:case:other-meaning:{fname}', f"{where}: {fname}('{by}')={r.tolist()[:6]} is accepted but differs from {fname}('{by.lower()}')={got[fname, by.lower()].tolist()[:6]}"))
+            if stat is not None:
+                stat['by_case_accepted'] = stat.get('by_case_accepted', 0) + 1
+        # invalid values must not be answered
+        for bad in BY_BAD_STR + BY_BAD_OTHER:
+            e, r = _raises(lambda: f(bad))
+            isstr = isinstance(bad, str)
+            if e is None:
+                viol.append((f'by:invalid-accepted:{fname}:{"str" if isstr else "non-str"}', f'{where}: {fname}({bad!r}) returned {np.asarray(r).tolist()[:6]} instead of raising'))
+            elif isstr and not isinstance(e, (ValueError, TypeError)):
+                viol.append((f'by:invalid:wrong-exception:{fname}', f'{where}: {fname}({bad!r}) raised {type(e).__name__}: {e}'))
+            elif stat is not None:
+                stat['invalid_by_rejected'] = stat.get('invalid_by_rejected', 0) + 1
+    return out
+
+
+def check_len(x, n, layout, where, viol):
+    """len() / len(x): the number of samples per polarisation"""
+    for nm, val in (('x.len()', x.len()), ('len(x)', len(x))):
+        if val != n:
+            viol.append((f'len:{layout}:{_parity(n)}', f'{where}: {nm}={val!r}, the record has {n} samples per polarisation (signal shape {np.shape(x.signal)})'))
+    return b''
+
+
 # ------------------------------------------------------------------ one state expansion
-def _cmp_model(y_arr, mn, me, depth, n, key, where, viol, stat, eps=EPS):
-    """implementation array vs both models; returns (max error in units of eps*L*||x||2, agreed?)"""
+def _cmp_model(y_arr, mn, me, depth, n, key, where, viol, stat, eps=EPS, sub=None):
+    """implementation array vs both models; returns (max error in units of eps*L*||x||2, agreed?)
+    me is None (lengths > EXACT_FULL_MAX): the exact DFT of the ACTUAL operand sub=(operand, dom, shift) at the positions
+    `_bins(n)` - one transform, so one unit of the allowance - while the numpy.fft model stays chained from the leaf."""
     y2 = _a2(np.asarray(y_arr))
     lg = max(1.0, math.log2(n))
-    nrm = _rownorm(me)
+    if me is not None:
+        nrm = _rownorm(me)
+        d_e = depth
+        err_e = np.max(np.abs(y2.astype(_CLD) - me), axis=1).astype(float)
+    else:
+        op, dom, shift = sub
+        pos = _bins(n)
+        nrm = _rownorm(op) * (math.sqrt(n) if dom != 't' else 1 / math.sqrt(n))    # ||output||2 by Parseval
+        d_e = 1
+        err_e = np.max(np.abs(y2[:, pos].astype(_CLD) - ex_bins(op, dom, shift, pos)), axis=1).astype(float)
+        stat['exact_bins_compared'] = stat.get('exact_bins_compared', 0) + len(pos) * y2.shape[0]
     tol = depth * K_FFT * eps * lg * nrm
-    err_e = np.max(np.abs(y2.astype(_CLD) - me), axis=1).astype(float)
+    tol_e = d_e * K_FFT * eps * lg * nrm
     err_n = np.max(np.abs(y2 - mn), axis=1)
     if y2.tobytes() == mn.tobytes():
         stat['bitwise_eq_numpy_model'] = stat.get('bitwise_eq_numpy_model', 0) + 1
-    ok = not (np.any(err_e > tol) or np.any(err_n > 2 * tol))
+    ok = not (np.any(err_e > tol_e) or np.any(err_n > 2 * tol))
     if not ok:
-        r = int(np.argmax(err_e - tol))
-        viol.append((key, f'{where}: row {r}: |impl-exactDFT|={err_e[r]:.3e}, |impl-numpy.fft model|={err_n[r]:.3e}, '
-                          f'allowed {tol[r]:.3e} (= {depth}*{K_FFT:g}*eps*max(1,log2 N)*||x||2, eps={eps:.3g}); impl={y2[r].tolist()[:5]} model={mn[r].tolist()[:5]}'))
+        r = int(np.argmax(np.maximum(err_e - tol_e, err_n - 2 * tol)))
+        viol.append((key, f'{where}: row {r}: |impl-exactDFT|={err_e[r]:.3e} (allowed {tol_e[r]:.3e}), |impl-numpy.fft model|={err_n[r]:.3e} '
+                          f'(allowed {2 * tol[r]:.3e}); allowance of one transform {K_FFT:g}*eps*max(1,log2 N)*||x||2, eps={eps:.3g}, {depth} transform(s) '
+                          f'since the leaf; impl={y2[r].tolist()[:5]} model={mn[r].tolist()[:5]}'))
     with np.errstate(all='ignore'):
-        ratio = np.where(nrm > 0, err_e / (eps * lg * np.where(nrm > 0, nrm, 1.0) * depth), 0.0)
+        ratio = np.where(nrm > 0, err_e / (eps * lg * np.where(nrm > 0, nrm, 1.0) * d_e), 0.0)
     return float(np.max(ratio)), ok
 
 
@@ -491,6 +839,9 @@ def _expand0(st, layout, n, leafdesc, stat, eps):
     where0 = f'{leafdesc} program={st.path}'
     ps2, pn2 = _num(_a2(np.asarray(xp.signal))), _num(_a2(xp.noise))
     lg = max(1.0, math.log2(n))
+    full = n <= EXACT_FULL_MAX                              # chained exact model | exact DFT of the actual operand at `_bins(n)`
+    ps_ld = None if full else ps2.astype(_CLD)
+    pn_ld = None if full or pn2 is None else pn2.astype(_CLD)
     res_by_op = {}
     succ = []
     maxratio = 0.0
@@ -520,14 +871,15 @@ def _expand0(st, layout, n, leafdesc, stat, eps):
             viol.append((f'operand-modified:{layout}', f'{where}: operand buffers changed'))
         # --- models
         mn_s, mn_n = np_step(st.mn_s, dom, shift), np_step(st.mn_n, dom, shift)
-        me_s, me_n = ex_step(st.me_s, dom, shift), ex_step(st.me_n, dom, shift)
+        me_s, me_n = (ex_step(st.me_s, dom, shift), ex_step(st.me_n, dom, shift)) if full else (None, None)
         d = st.tdepth + 1
         sh = '+shift' if shift else ''
         par = f':{_parity(n)}' if shift else ''
-        mr, agreed = _cmp_model(y.signal, mn_s, me_s, d, n, f'value:{dirn}{sh}:signal:{layout}{par}', where, viol, stat, eps)
+        mr, agreed = _cmp_model(y.signal, mn_s, me_s, d, n, f'value:{dirn}{sh}:signal:{layout}{par}', where, viol, stat, eps,
+                                sub=(ps_ld, dom, shift))
         maxratio = max(maxratio, mr)
         noise_ok = True
-        if st.me_n is not None:
+        if st.mn_n is not None:
             if y.noise is None:
                 viol.append((f'noise-dropped:{dirn}{sh}:{layout}', f'{where}: operand has noise, result has none'))
                 noise_ok = False
@@ -535,7 +887,8 @@ def _expand0(st, layout, n, leafdesc, stat, eps):
                 viol.append((f'new-object:shape:{layout}', f'{where}: noise shape {np.shape(xp.noise)} -> {np.shape(y.noise)}'))
                 noise_ok = False
             else:
-                mr, ok_n = _cmp_model(y.noise, mn_n, me_n, d, n, f'value:{dirn}{sh}:noise:{layout}{par}', where, viol, stat, eps)
+                mr, ok_n = _cmp_model(y.noise, mn_n, me_n, d, n, f'value:{dirn}{sh}:noise:{layout}{par}', where, viol, stat, eps,
+                                      sub=(pn_ld, dom, shift))
                 maxratio = max(maxratio, mr)
                 agreed = agreed and ok_n
         elif y.noise is not None and np.any(np.asarray(y.noise) != 0):
@@ -562,7 +915,16 @@ def _expand0(st, layout, n, leafdesc, stat, eps):
             stat['resync'] = stat.get('resync', 0) + 1
             ys2, yn2 = _a2(np.asarray(y.signal)), _a2(y.noise)
             succ.append((op, y, ys2.astype(complex), None if yn2 is None else yn2.astype(complex),
-                         ys2.astype(_CLD), None if yn2 is None else yn2.astype(_CLD), 0))
+                         ys2.astype(_CLD) if full else None, None if yn2 is None or not full else yn2.astype(_CLD), 0))
+        # --- asked again, the object answers the same, with another new object (states of depth <= 1)
+        if st.depth <= 1:
+            y_again = xp(dom, shift)
+            stat['repeated_calls'] = stat.get('repeated_calls', 0) + 1
+            if not _same_result(y_again, y):
+                viol.append((f'repeat:differs:{layout}', f'{where}: the same call on the same (unchanged) object gave a different result the second time'))
+            if y_again is y or any(isinstance(a, np.ndarray) and isinstance(b, np.ndarray) and np.shares_memory(a, b)
+                                   for a in (y.signal, y.noise) for b in (y_again.signal, y_again.noise)):
+                viol.append((f'repeat:aliasing:{layout}', f'{where}: two calls returned the same object / shared buffers'))
 
     # --- 'f' and 'w' are the same transform
     for shift in (False, True):
@@ -615,18 +977,57 @@ def _expand0(st, layout, n, leafdesc, stat, eps):
 
 
 # ------------------------------------------------------------------ case: BFS from one leaf
+def _check_state(st, n, layout, fs_now, where, viol, sfx, stat, by_depth=1):
+    """state invariants: len(), w() (depth <= W_DEPTH), power(), and the `by` lattice of power()/abs() (depth <= by_depth)"""
+    out = check_len(st.obj, n, layout, where, viol)
+    if st.depth <= W_DEPTH:
+        out += check_w(st.obj, n, layout, fs_now, where, viol)
+    out += check_power(st.obj, layout, where, viol, sfx, stat)
+    if st.depth <= by_depth:
+        out += check_by(st.obj, layout, where, viol, sfx, stat, extended=st.depth <= BY_DEPTH)
+    return out
+
+
+def _same_result(a, b):
+    return type(a) is type(b) and _beq(a.signal, b.signal) and (a.noise is None) == (b.noise is None) and (a.noise is None or _beq(a.noise, b.noise))
+
+
+def check_spellings(x, layout, where, viol, stat):
+    """the documented parameter names as keywords; numpy's own str / bool scalars for the str / bool arguments"""
+    for dom in ('w', 't'):
+        for shift in (False, True):
+            base = x(dom, shift)
+            variants = (('domain=,shift=', lambda: x(domain=dom, shift=shift)), ('shift=', lambda: x(dom, shift=shift)),
+                        ('np.str_', lambda: x(np.str_(dom), shift)), ('np.bool_', lambda: x(dom, np.bool_(shift))))
+            if not shift:
+                variants += (('shift-omitted', lambda: x(dom)), ('domain=', lambda: x(domain=dom)))
+            for nm, call in variants:
+                y = call()
+                stat['spellings'] = stat.get('spellings', 0) + 1
+                if not _same_result(y, base):
+                    viol.append((f'spelling:call:{nm}:{layout}', f"{where}: x('{dom}', {shift}) spelled as {nm} gives a different result than the positional call"))
+    w0, w1 = x.w(), x.w(True)
+    for nm, call, ref in (('w(shift=True)', lambda: x.w(shift=True), w1), ('w(np.True_)', lambda: x.w(np.bool_(True)), w1),
+                          ('w(False)', lambda: x.w(False), w0), ('w(shift=False)', lambda: x.w(shift=False), w0),
+                          ('w(np.False_)', lambda: x.w(np.bool_(False)), w0)):
+        r = np.asarray(call())
+        if not _beq(r, ref):
+            viol.append((f'spelling:w:{layout}', f'{where}: {nm} differs from the positional call'))
+
+
 def explore(case):
-    """case = dict(layout, n, pat, nmode, cfg, depth, seed)"""
+    """case = dict(layout, n, pat, nmode, cfg, depth, seed[, form])"""
     from opticomlib.typing import gv
     layout, n, pat, nmode = case['layout'], case['n'], tuple(case['pat']), case['nmode']
     depth, seed, cfg = case['depth'], case['seed'], case['cfg']
+    form = case.get('form', 'nd')
+    by_depth = case.get('by_depth', 1)                      # power(by)/abs(by) on the states of depth <= by_depth
     viol, stat = [], {}
     dtname = pat[1] if pat[0] == 'dt' else None
-    eps, sfx = _leaf_eps(dtname), _dt_class(dtname)
-    leafdesc = f'leaf=({layout}, N={n}, data={pat}, noise={nmode}, gv={GV_CFGS[cfg][0]})'
+    leafdesc = f'leaf=({layout}, N={n}, data={pat}, noise={nmode}, gv={GV_CFGS[cfg][0]}{"" if form == "nd" else ", built as " + form})'
     gv_reset()                                              # object is built under the default grid ...
     s, nz = leaf_arrays(layout, n, pat, nmode, seed)
-    x = build_obj(layout, s, nz)
+    x = build_form(form, layout, s, nz)
     apply_cfg(cfg)                                          # ... and used under another one
     fs_now = gv.fs
     if abs(fs_now - GV_CFGS[cfg][1]) > 1e-12 * fs_now:
@@ -634,13 +1035,24 @@ def explore(case):
     gsnap = gv_snapshot()
 
     xs2, xn2 = _a2(np.asarray(x.signal)), _a2(x.noise)
-    if xs2.shape != s.shape or not np.array_equal(xs2, s) or (nz is None) != (xn2 is None) or (nz is not None and not np.array_equal(xn2, nz)):
-        viol.append((f'leaf:constructor:{layout}{sfx}', f'{leafdesc}: constructor did not store the given arrays'))
-        return res(viol=viol, obs='ctor')
-    if dtname is not None and str(np.asarray(x.signal).dtype) != str(np.dtype(dtname)):
-        stat['leaf_dtype_changed_by_constructor'] = 1      # not part of the statement; recorded only
+    stored = xs2.dtype
+    # unit roundoff demanded / class suffix of the violation keys: by the dtype the samples are STORED in
+    eps = _leaf_eps(stored.name)
+    sfx = _dt_class(stored.name) if dtname is not None else ''
+    if form == 'nd':
+        if xs2.shape != s.shape or not np.array_equal(xs2, s) or (nz is None) != (xn2 is None) or (nz is not None and not np.array_equal(xn2, nz)):
+            viol.append((f'leaf:constructor:{layout}{sfx}', f'{leafdesc}: constructor did not store the given arrays'))
+            return res(viol=viol, obs='ctor')
+        if dtname is not None and nmode != 'xdt' and str(stored) != str(np.dtype(dtname)):
+            stat['leaf_dtype_changed_by_constructor'] = 1      # not part of the statement; recorded only
+    else:
+        # how a container is converted is not this property's business: the reference is what the object stores
+        if xs2.shape != s.shape or (xn2 is not None and xn2.shape != s.shape) or not isinstance(x.signal, np.ndarray):
+            return res(viol=[], obs='form-shape', stats={'form_leaf_with_unexpected_shape': 1})
+        stat['form_leaves'] = 1
+    full = n <= EXACT_FULL_MAX
     root = _St(x, xs2.astype(complex), None if xn2 is None else xn2.astype(complex),
-               xs2.astype(_CLD), None if xn2 is None else xn2.astype(_CLD), 0, [], 0)
+               xs2.astype(_CLD) if full else None, None if xn2 is None or not full else xn2.astype(_CLD), 0, [], 0)
     seen = {_canon(layout, x): 0}
     order = [(_canon(layout, x), _nontrivial_state(n, xs2, xn2))]
     h = hashlib.sha256()
@@ -655,13 +1067,13 @@ def explore(case):
             stat['invalid_domain_rejected'] = stat.get('invalid_domain_rejected', 0) + 1
         else:
             viol.append((f'invalid-domain:accepted:{layout}{sfx}', f'{leafdesc}: x({bad!r}) returned {type(r).__name__} instead of raising ValueError'))
+    if pat[0] not in ('e', 'ec', 'je'):                     # spellings do not depend on the data: field members only
+        check_spellings(x, layout, leafdesc, viol, stat)
     while frontier and level < depth:
         nxt = []
         for st in frontier:
             where = f'{leafdesc} program={st.path}'
-            if st.depth <= W_DEPTH:
-                h.update(check_w(st.obj, n, layout, fs_now, where, viol))
-            h.update(check_power(st.obj, layout, where, viol, sfx, stat))
+            h.update(_check_state(st, n, layout, fs_now, where, viol, sfx, stat, by_depth))
             succ, mr = _expand(st, layout, n, leafdesc, viol, stat, eps, sfx)
             maxratio = max(maxratio, mr)
             for op, y, mn_s, mn_n, me_s, me_n, td in succ:
@@ -676,9 +1088,7 @@ def explore(case):
     # states of the last level: state invariants only (w, power)
     for st in frontier:
         where = f'{leafdesc} program={st.path}'
-        if st.depth <= W_DEPTH:
-            h.update(check_w(st.obj, n, layout, fs_now, where, viol))
-        h.update(check_power(st.obj, layout, where, viol, sfx, stat))
+        h.update(_check_state(st, n, layout, fs_now, where, viol, sfx, stat, by_depth))
     if gv_snapshot() != gsnap:
         viol.append(('gv-modified', f'{leafdesc}: gv changed while transforming / calling w() / power()'))
     gv.clean()
@@ -705,7 +1115,13 @@ def wgrid(case):
     fs_a = gv.fs
     h.update(check_w(x, n, layout, GV_CFGS[ia][1], f'{desc} [called under the construction grid]', viol))
     # 1. later gv calls WITHOUT clean(): the rate in force is whatever gv says now
-    apply_cfg(ib, clean=False)
+    rejected = 0
+    try:
+        apply_cfg(ib, clean=False)
+    except ArithmeticError:
+        # gv itself fails on some histories (fs alone below R/2 with a slot count set: gv.sps becomes 0 -> division by zero while
+        # rebuilding gv.dw).  What gv does with its arguments is property C14; the grid left behind is still "currently configured".
+        rejected = 1
     fs_b = gv.fs
     g0 = gv_snapshot()
     h.update(check_w(x, n, layout, fs_b, f'{desc} [gv reconfigured without clean(); gv.fs={fs_b!r}]', viol))
@@ -726,39 +1142,86 @@ def wgrid(case):
     for k, m in viol:
         first.setdefault(k, m)
     return res(viol=list(first.items()), obs=h.digest(), nontrivial=(fs_a != fs_b) and n >= 2,
-               stats={'w_calls': 10, 'fs_changed_between_construction_and_call': int(fs_a != fs_b)})
+               stats={'w_calls': 10, 'fs_changed_between_construction_and_call': int(fs_a != fs_b),
+                      'gv_raised_on_reconfiguration_without_clean': rejected})
 
 
 # ------------------------------------------------------------------ driver
 def depth_for(tier, n):
+    if n > EXACT_FULL_MAX:                                    # long records: every state costs O(N log N) + O(16 N) long-double work
+        return 1 if tier == 'quick' or n > 5000 else 2
     if tier == 'quick':
         return 2
-    return 4 if n in LENGTHS_QUICK else 3
+    return 4 if n in LENGTHS_DEPTH4 else 3
 
 
 def leaves(tier, seed):
-    lengths = LENGTHS_QUICK + (LENGTHS_EXTRA if tier == 'thorough' else ())
+    thorough = tier == 'thorough'
+    lengths = LENGTHS_QUICK + (LENGTHS_EXTRA if thorough else ())
+    longs = LONG_QUICK + (LONG_EXTRA if thorough else ())
     out = []
     i = 0
     for n in sorted(lengths):
         for layout in LAYOUTS:
-            for nmode in NMODES:
+            for nmode in NMODES_FIELD:
                 for pat in patterns(layout, n):
-                    if pat[0] == 'ramp_i' and nmode != 'none':
+                    if pat[0] == 'ramp_i' and nmode not in ('none', 'zero'):
                         continue                              # int dtype only exists without (complex) noise
+                    if nmode == 'zero' and pat[0] in ('e', 'ec', 'je'):
+                        continue                              # all-zero noise: field members only
                     out.append({'layout': layout, 'n': n, 'pat': pat, 'nmode': nmode, 'cfg': i % len(GV_CFGS),
                                 'depth': depth_for(tier, n), 'seed': seed})
                     i += 1
-    # sample-dtype axis: dtype x kind x layout x length x (noise of the same dtype absent | present [| alone])
+    # sample-dtype axis: dtype x kind x layout x length x (noise of the same dtype absent | present [| alone] | of another dtype)
     j = 0
     for n in sorted(lengths):
         for layout in LAYOUTS:
-            for nmode in DT_NMODES:
+            for nmode in DT_NMODES + ('xdt',):
                 for dtname in DTYPES:
-                    for kind in DT_KINDS:
+                    for kind in (XDT_KINDS if nmode == 'xdt' else DT_KINDS):
                         out.append({'layout': layout, 'n': n, 'pat': ('dt', dtname, kind), 'nmode': nmode, 'cfg': j % len(GV_CFGS),
                                     'depth': DT_DEPTH_QUICK if tier == 'quick' else depth_for(tier, n), 'seed': seed})
                         j += 1
+    # long lengths: reduced data alphabet, all layouts, all noise modes, one member per dtype class
+    k = 0
+    for n in sorted(longs):
+        for layout in LAYOUTS:
+            for nmode in NMODES_FIELD:
+                for pat in long_patterns(layout, n):
+                    if pat[0] == 'ramp_i' and nmode not in ('none', 'zero'):
+                        continue
+                    if nmode == 'zero' and pat[0] in ('e', 'ec', 'je'):
+                        continue
+                    if nmode == 'swap' and pat[0] in ('e', 'ec', 'je') and n > EXACT_FULL_MAX:
+                        continue                              # (the noise path of the long records is exercised by the field members)
+                    if n > LONG_THIN and (nmode == 'swap' or (nmode == 'zero' and pat[0] != 'ramp_c')):
+                        continue
+                    out.append({'layout': layout, 'n': n, 'pat': pat, 'nmode': nmode, 'cfg': k % len(GV_CFGS),
+                                'depth': 2 if (n <= EXACT_FULL_MAX and not thorough) else depth_for(tier, n), 'seed': seed})
+                    k += 1
+            for nmode in ('none', 'mix'):
+                for dtname, kind in LONG_DT:
+                    out.append({'layout': layout, 'n': n, 'pat': ('dt', dtname, kind), 'nmode': nmode, 'cfg': k % len(GV_CFGS),
+                                'depth': 1 if not thorough else min(2, depth_for(tier, n)), 'seed': seed})
+                    k += 1
+    # forms: other containers / spellings of the constructor, objects handed out by other methods
+    m = 0
+    for n in FORM_LENGTHS + FORM_LENGTHS_LONG:
+        for form, layouts, only_n, pats in FORMS:
+            if only_n is not None and n not in only_n:
+                continue
+            if form.startswith('str:') and n > 100:
+                continue
+            for layout in layouts:
+                for pname in pats:
+                    for nmode in ('none', 'mix'):
+                        if form.startswith('scalar:') and layout == 'O2' and nmode != 'none':
+                            continue
+                        out.append({'layout': layout, 'n': n, 'pat': (pname,), 'nmode': nmode, 'cfg': m % len(GV_CFGS), 'form': form,
+                                    'depth': 1 if not thorough else min(2, depth_for(tier, n)), 'seed': seed})
+                        m += 1
+    for c in out:
+        c['by_depth'] = 2 if thorough else 1
     out.sort(key=lambda c: c['n'])                            # stable: shortest first, float64/complex128 members before the dtype axis
     return out
 
@@ -766,19 +1229,33 @@ def leaves(tier, seed):
 def run(ctx):
     depth = 2 if ctx.quick else 4
     lengths = LENGTHS_QUICK + (() if ctx.quick else LENGTHS_EXTRA)
+    longs = LONG_QUICK + (() if ctx.quick else LONG_EXTRA)
     ctx.rule(f'xf: for every leaf = (class/layout in {LAYOUTS}) x (length in {sorted(lengths)}) x (data = FULL BASIS e_k and j*e_k on every '
-             f'row, real and complex dtype, + real/int/complex ramps + one VERIF_SEED-selected random field) x (noise in {NMODES}), and '
+             f'row, real and complex dtype, + real/int/complex ramps + one VERIF_SEED-selected random field + scale members 1e-12, 1e-10, '
+             f'1e6, 1e-9 quadrature, DC 1e6 with a 1e-3 variation) x (noise in {NMODES}; field members also with an all-zero noise array), and '
              f'(sample dtype in {DTYPES}) x (ramp | both limits of the integer type resp. thirds/sevenths | last basis element | seeded field) '
-             f'x (same-dtype noise in {DT_NMODES}) on every layout and length'
+             f'x (same-dtype noise in {DT_NMODES} | noise handed over in another dtype) on every layout and length'
              f'{f" (programs of depth <= {DT_DEPTH_QUICK} on these leaves: every result is complex whatever the sample dtype)" if ctx.quick else ""}; '
-             f'a BFS over all programs of depth <= {depth}{"" if ctx.quick else f" (depth <= 3 for the extra lengths {sorted(LENGTHS_EXTRA)})"} over the 6 operations (w|f|t) x (shift False|True), de-duplicated by '
+             f'a BFS over all programs of depth <= {depth}{"" if ctx.quick else f" (depth <= 3 for the lengths {sorted(set(lengths) - set(LENGTHS_DEPTH4))})"} over the 6 operations (w|f|t) x (shift False|True), de-duplicated by '
              f'canonical object state, executed on the real objects in lock-step with a numpy.fft row-wise model and an exact '
              f'80-bit DFT model of the (signal, noise) pair; every transition: new object/class/n_pol/shape/no aliasing/operand '
              f'unchanged, values vs both models, Parseval per row, f==w bitwise, opposite numpy shift recovers the unshifted '
-             f'result bitwise, round trips wt/tw (ft/tf from the leaf); every state: power(), and w(), w(True) on states of depth <= 2; objects are built under the default '
+             f'result bitwise, round trips wt/tw (ft/tf from the leaf), on states of depth <= 1 the same call repeated (same bytes, another new object); '
+             f'every state: len(), power(); states of depth <= {1 if ctx.quick else 2}: power(by)/abs(by) for by in {BY_VALID} (leaf state: also letter case {BY_CASE}, keyword / numpy-str '
+             f'spelling, {len(BY_BAD_STR) + len(BY_BAD_OTHER)} invalid values), and w(), w(True) on states of depth <= 2; field leaves: keyword / numpy-scalar spellings of '
+             f'domain and shift; {len(BAD_DOMAINS)} invalid domains on every leaf; objects are built under the default '
              f'gv and used under one of {len(GV_CFGS)} other gv configurations')
-    ctx.rule(f'wgrid: full product layout x length x noise(none|mix) x gv configuration at construction x gv configuration at call '
-             f'({len(GV_CFGS)}^2 ordered pairs, with and without clean() in between)')
+    ctx.rule(f'xf, long lengths {sorted(longs)}: layouts x (basis elements at both ends and around the middle of every row + every field member) x noise modes '
+             f'+ one member per sample-dtype class {[d for d, _ in LONG_DT]}; programs of depth <= 2 up to length {EXACT_FULL_MAX} '
+             f'(full exact model), above: depth <= {1 if ctx.quick else "2 (1 beyond 5000)"} with the exact DFT of the actual operand evaluated at {len(_bins(4096))} output positions '
+             f'(both ends, around the middle, spread) and the numpy.fft model at every position')
+    ctx.rule(f'xf, forms: {len(FORMS)} other ways of obtaining the object (list, tuple, str with three separator styles, dtype=, read-only input, '
+             f'non-contiguous views as attributes, column-major 2-pol input, 1-D / (1,N) input duplicated to two polarisations, (2,N) with n_pol=1, '
+             f'a slice of a longer object, copy(), {len(SCALARS)} scalar types for length 1) x lengths {FORM_LENGTHS + FORM_LENGTHS_LONG} x noise (none|mix); '
+             f'the reference is what the object stores')
+    ctx.rule(f'wgrid: full product layout x length (short lengths + {WGRID_LONG}) x noise(none|mix) x gv configuration at construction x gv configuration at call '
+             f'({len(GV_CFGS)}^2 ordered pairs, with and without clean() in between); gv configurations include non-integer fs/R given as (R,fs), '
+             f'(sps,fs), fs alone, a slot count N (gv.w of 3, 5, 16, 4096 entries), another wavelength, a custom attribute, two-call histories')
     ctx.assume('numpy.fft.fft/ifft/fftshift/ifftshift are trusted only as the reference NAMED by the statement; values are also compared '
                'with an exact DFT computed from a long-double DFT matrix, and shifts with explicit np.roll')
     ctx.assume(f'rounding allowance of one transform: {K_FFT:g}*eps*max(1,log2 N)*||x||_2 per element (grows linearly with program depth); '
@@ -795,7 +1272,7 @@ def run(ctx):
     ctx.space('xf.leaves', len(ls))
     ctx.space('xf.operations', len(OPS))
     ctx.space('gv.configurations', len(GV_CFGS))
-    payloads = ctx.pmap('xf', explore, ls, horizon=120, sample_every=max(1, len(ls) // 4))
+    payloads = ctx.pmap('xf', explore, ls, horizon=120, chunk=48, sample_every=max(1, len(ls) // 4))   # small chunks: the long records come last
     states = set()
     transitions = 0
     maxratio = 0.0
@@ -820,10 +1297,11 @@ def run(ctx):
           f'max error={maxratio:.3f} (allowed {K_FFT:g}) x eps*max(1,log2N)*||x||2 per transform', flush=True)
 
     wc = []
-    for n in sorted(lengths):
+    for n in sorted(lengths + WGRID_LONG):
         for layout in LAYOUTS:
-            for nmode in ('none', 'mix'):
+            for nmode in ('none', 'mix') if n <= EXACT_FULL_MAX else ('none',):
                 for a in range(len(GV_CFGS)):
                     for b in range(len(GV_CFGS)):
                         wc.append({'layout': layout, 'n': n, 'nmode': nmode, 'a': a, 'b': b, 'seed': ctx.seed})
     ctx.pmap('wgrid', wgrid, wc, horizon=60, sample_every=max(1, len(wc) // 3))
+    print(f'[C02] wall per part: {getattr(ctx, "part_wall", {})}', flush=True)
